@@ -24,9 +24,11 @@ package lexer
 //@   requires wfA(l)
 //@   ensures wfr(l.reader) && sameInput(l.reader) && shapeS(l.reader) && peeked(l.reader) && zeroEOF(l.reader)
 //@   ensures !unicode.IsSpace(l.reader.char) || l.reader.char == '\n'
+//@   ensures[C06] nlPending(l.reader) == old(nlPending(l.reader))
 //@   loop 0 invariant wfr(l.reader) && sameInput(l.reader) && !l.reader.ungetFlg && l.reader.char == char && zeroEOF(l.reader)
 //@   loop 0 invariant N(l.reader) + ite(l.reader.char != 0, 2, 0) <= old(M(l.reader))
 //@   loop 0 invariant l.reader.char == 0 ==> l.reader.pos == len(l.reader.runes) && len(l.reader.history) == 0
+//@   loop 0 invariant[C06] nlPending(l.reader) + ite(l.reader.char == '\n', 1, 0) == old(nlPending(l.reader))
 //@   loop 0 invariant len(l.reader.history) == 0 || (len(l.reader.history) == 1 && char == '.' && !unicode.IsDigit(l.reader.history[0]))
 //@   loop 0 decreases N(l.reader) + ite(l.reader.char != 0, 2, 0)
 
@@ -37,8 +39,10 @@ package lexer
 //@   terminates
 //@   requires l != nil && wfr(l.reader) && H0(l.reader) && Z(l.reader)
 //@   ensures wfr(l.reader) && sameInput(l.reader) && H0(l.reader) && peeked(l.reader) && zeroEOF(l.reader)
+//@   ensures[C06] nlPending(l.reader) == old(nlPending(l.reader))
 //@   ensures len(result.buf) >= 1
 //@   loop 0 invariant wfr(l.reader) && sameInput(l.reader) && H0(l.reader) && M(l.reader) <= old(M(l.reader)) && zeroEOF(l.reader)
+//@   loop 0 invariant[C06] nlPending(l.reader) == old(nlPending(l.reader))
 //@   loop 0 invariant len(buf.buf) >= 1
 //@   loop 0 decreases M(l.reader)
 
@@ -47,8 +51,10 @@ package lexer
 //@   terminates
 //@   requires l != nil && wfr(l.reader) && H0(l.reader) && Z(l.reader)
 //@   ensures wfr(l.reader) && sameInput(l.reader) && H0(l.reader) && peeked(l.reader) && zeroEOF(l.reader)
+//@   ensures[C06] nlPending(l.reader) == old(nlPending(l.reader))
 //@   ensures len(result.buf) >= 1
 //@   loop 0 invariant wfr(l.reader) && sameInput(l.reader) && H0(l.reader) && M(l.reader) <= old(M(l.reader)) && zeroEOF(l.reader)
+//@   loop 0 invariant[C06] nlPending(l.reader) == old(nlPending(l.reader))
 //@   loop 0 invariant len(buf.buf) >= 1
 //@   loop 0 decreases M(l.reader)
 
@@ -57,8 +63,10 @@ package lexer
 //@   terminates
 //@   requires l != nil && wfr(l.reader) && H0(l.reader) && Z(l.reader)
 //@   ensures wfr(l.reader) && sameInput(l.reader) && H0(l.reader) && peeked(l.reader) && zeroEOF(l.reader)
+//@   ensures[C06] nlPending(l.reader) == old(nlPending(l.reader))
 //@   ensures len(result.buf) >= 1
 //@   loop 0 invariant wfr(l.reader) && sameInput(l.reader) && H0(l.reader) && M(l.reader) <= old(M(l.reader)) && zeroEOF(l.reader)
+//@   loop 0 invariant[C06] nlPending(l.reader) == old(nlPending(l.reader))
 //@   loop 0 invariant len(buf.buf) >= 1
 //@   loop 0 decreases M(l.reader)
 
@@ -67,16 +75,21 @@ package lexer
 //@   terminates
 //@   requires l != nil && wfr(l.reader) && H0(l.reader) && Z(l.reader)
 //@   ensures wfr(l.reader) && sameInput(l.reader) && H0(l.reader) && peeked(l.reader) && zeroEOF(l.reader)
+//@   ensures[C06] nlPending(l.reader) == old(nlPending(l.reader))
 //@   loop 0 invariant wfr(l.reader) && sameInput(l.reader) && H0(l.reader) && M(l.reader) <= old(M(l.reader)) && zeroEOF(l.reader)
+//@   loop 0 invariant[C06] nlPending(l.reader) == old(nlPending(l.reader))
 //@   loop 0 decreases M(l.reader)
 
 //@ func (*ti/lexer.Lexer).lexString
 //@   safe
 //@   terminates
-//@   requires l != nil && wfr(l.reader) && H0(l.reader) && Z(l.reader)
+//@   requires l != nil && wfr(l.reader) && H0(l.reader) && Z(l.reader) && start != '\n'
 //@   ensures wfr(l.reader) && sameInput(l.reader) && H0(l.reader) && M(l.reader) <= old(M(l.reader)) && zeroEOF(l.reader)
 //@   ensures typeis(l.val, "string")
+//@   # C06: the literal's value contains exactly the newlines that were consumed while lexing it
+//@   ensures[C06] old(nlPending(l.reader)) - nlPending(l.reader) == strings.Count(unbox(l.val, "string"), "\n")
 //@   loop 0 invariant wfr(l.reader) && sameInput(l.reader) && H0(l.reader) && M(l.reader) <= old(M(l.reader)) && zeroEOF(l.reader)
+//@   loop 0 invariant[C06] old(nlPending(l.reader)) - nlPending(l.reader) == nlwritten(buf)
 //@   loop 0 decreases M(l.reader)
 
 //@ # reserved words map to parser token kinds: every value stored in `reserved` is the rune NIL
@@ -94,8 +107,10 @@ package lexer
 //@   requires l != nil && wfr(l.reader) && H0(l.reader) && l.reader.ungetFlg && unicode.IsDigit(l.reader.char) && Z(l.reader)
 //@   ensures wfr(l.reader) && sameInput(l.reader) && shapeA(l.reader) && M(l.reader) < old(M(l.reader)) && Z(l.reader)
 //@   ensures (l.tok == base.INT && typeis(l.val, "int64")) || (l.tok == base.FLOAT && typeis(l.val, "float64"))
+//@   ensures[C06] nlPending(l.reader) == old(nlPending(l.reader))
 //@   loop 0 invariant wfr(l.reader) && sameInput(l.reader) && H0(l.reader) && zeroEOF(l.reader)
 //@   loop 0 invariant ite(l.reader.ungetFlg, M(l.reader) == old(M(l.reader)) && unicode.IsDigit(l.reader.char), M(l.reader) <= old(M(l.reader)) - 2)
+//@   loop 0 invariant[C06] nlPending(l.reader) == old(nlPending(l.reader))
 //@   loop 0 decreases M(l.reader)
 
 //@ # ---- lexIdentifier: entered with an identifier rune pushed back; consumes at least that rune ----
@@ -107,9 +122,11 @@ package lexer
 //@   ensures wfr(l.reader) && sameInput(l.reader) && H0(l.reader) && M(l.reader) < old(M(l.reader)) && zeroEOF(l.reader)
 //@   ensures (l.tok == base.UNKNOWN || l.tok == base.NIL) && typeis(l.val, "ti/lexer.Identifier")
 //@   ensures len(unbox(l.val, "ti/lexer.Identifier").name) > 0 && tblOK() && reservedOK()
+//@   ensures[C06] nlPending(l.reader) == old(nlPending(l.reader))
 //@   loop 0 invariant wfr(l.reader) && sameInput(l.reader) && H0(l.reader) && zeroEOF(l.reader)
 //@   loop 0 invariant ite(l.reader.ungetFlg, M(l.reader) == old(M(l.reader)) && l.reader.char == old(l.reader.char), M(l.reader) <= old(M(l.reader)) - 2)
 //@   loop 0 invariant !l.reader.ungetFlg ==> len(buf.buf) >= 1
+//@   loop 0 invariant[C06] nlPending(l.reader) == old(nlPending(l.reader))
 //@   loop 0 decreases M(l.reader)
 //@   witness dec:loop0#0 "f x:\"abc"
 
@@ -134,6 +151,8 @@ package lexer
 //@   ensures[C02,C03] result ==> M(l.reader) < old(M(l.reader))
 //@   ensures[C02,C03] M(l.reader) <= old(M(l.reader)) + 1
 //@   ensures[C03] result ==> parserKind(l.tok)
+//@   # C06: a token consumes exactly the newlines it stands for
+//@   ensures[C06] old(nlPending(l.reader)) - nlPending(l.reader) == ite(result && l.tok == '\n', 1, ite(result && l.tok == base.STRING, strings.Count(unbox(l.val, "string"), "\n"), 0))
 //@   ensures[C03] result ==> valueMatches(l)
 //@   ensures[C03] !result ==> l.reader.char == 0
 //@   # "every rune of the input is consumed": false is returned only at the very end of the input ...
